@@ -112,7 +112,14 @@ func genC05Exec(r *wk.Rand, runID string, v1 bool) c05Exec {
 	e := c05Exec{spec: rig.ExecSpec{RunID: runID, StepID: step, NoSigCh: true}}
 	var input any = in
 	if !v1 && r.Chance(25) {
-		switch r.Intn(9) {
+		switch r.Intn(11) {
+		case 9:
+			// a rejected value that is long and not ASCII: the error text that quotes it runs to several KiB
+			in["mode"] = strings.Repeat(wk.Pick(r, []string{"é", "ü", "名", "ж"}), 1500+r.Intn(2000)) + "x"
+			e.invalid = "mode not in enum (long non-ASCII value)"
+		case 10:
+			in["undeclared_"+strings.Repeat("ключ", 700+r.Intn(700))] = int64(1)
+			e.invalid = "undeclared key (long non-ASCII name)"
 		case 0:
 			delete(in, "nonce")
 			e.invalid = "missing required nonce"
